@@ -184,6 +184,12 @@ class CallMixin:
             v = self.ev(node.args[0], st)
             raw = self.ev(node.args[1], st)
             return VBool(z3.And(st.heap[v.obj] == raw.t, v.off == 0))
+        if name == "fl":  # fl(x): x as computed in doubles by one rounding (relative-error model)
+            x = self.to_real(self.ev(node.args[0], st))
+            e = smt.fresh("eps", REAL)
+            u = z3.RealVal("1/9007199254740992")
+            st.assume(z3.And(-u <= e, e <= u))
+            return VReal(x * (1 + e))
         if name == "is_real_array":
             v = self.ev(node.args[0], st)
             return VBool(st.hmeta[v.obj]["kind"] == "real")
